@@ -9,6 +9,8 @@ from .values import ClassRef, ExcV, HObj, Opaque, Ref, fresh_name
 
 class VerifyMixin:
     racy_reads = None
+    background = None
+    ieee_checks = True
 
     def make_generator(self, finfo, self_val, args, kwargs, st, line):
         raise EngineError(f'generator function {finfo.qualname} called without contract')
@@ -45,6 +47,8 @@ class VerifyMixin:
         self.cur_inline_callees = c.inline_callees
         n0 = len(self.obligations)
         st = State()
+        for bg in (self.background or ()):
+            st.assume(bg)
         self_val = None
         a = finfo.node.args
         names = [x.arg for x in a.posonlyargs + a.args]
